@@ -65,6 +65,7 @@ type Config struct {
 	Name      string
 	New       func() Sys
 	MaxStates int // cap; 0 = none
+	Workers   int // goroutines (0 = all CPUs; 1 = deterministic order of states and representatives)
 	// OnState, if set, is called once per distinct state with the shortest path reaching it
 	// (not concurrently).
 	OnState func(path []Op)
@@ -147,6 +148,9 @@ func Explore(r *ev.Run, cfg Config) Result {
 		return Result{}
 	}
 	workers := runtime.NumCPU()
+	if cfg.Workers > 0 {
+		workers = cfg.Workers
+	}
 	var res Result
 	res.Exhaustive = true
 	seen := map[[16]byte]struct{}{}
